@@ -189,6 +189,7 @@ fn explore(ctx: &Ctx) -> Outcome {
     // large inputs, each described by a recipe (replayable): repeats longer than the largest LZ11
     // length (65 808), long literal runs, noise followed by long repeats, sizes around 2^20..2^24
     rest.extend(lzfam::big_inputs(ctx.tier, true));
+    rest.extend(lzfam::dense_runs(ctx.tier));
     let t = rest
         .par_iter()
         .fold(Tally::new, |mut t, inp| {
